@@ -23,6 +23,10 @@ class PathAbort(BaseException):
     """Current path is infeasible / pruned (assume failed)."""
 
 
+class HarnessError(BaseException):
+    """the checking machinery itself failed (never a verdict about cooler)"""
+
+
 class Inconclusive(BaseException):
     """The run cannot decide (solver unknown, unsupported operation, bound exhausted)."""
 
@@ -81,13 +85,40 @@ class Ctx:
         self.fresh += 1
         return f"{base}!{self.fresh}"
 
+    def get_model(self):
+        """model of the last satisfiable check (from the retry solver if the incremental one had given up)"""
+        return self._retry_model if getattr(self, "_retry_model", None) is not None else self.solver.model()
+
     def check(self, *extra):
+        self._retry_model = None
         t = time.time()
         r = self.solver.check(*extra)
         self.stats["solver_s"] += time.time() - t
         self.stats["queries"] += 1
         if r == z3.unknown:
-            raise Inconclusive(f"solver unknown: {self.solver.reason_unknown()}")
+            # an incremental solver that gave up within its budget (typically non-linear real arithmetic on a loaded machine):
+            # ask again from scratch with five times the budget, then with the nlsat tactic; a second unknown stays inconclusive
+            why = self.solver.reason_unknown()
+            self.stats["retried"] = self.stats.get("retried", 0) + 1
+            for mk in (lambda: z3.Solver(), lambda: z3.Tactic("qfnra-nlsat").solver()):
+                try:
+                    s2 = mk()
+                    s2.set("timeout", self.timeout_ms * 5)
+                    s2.add(*self.solver.assertions())
+                    s2.add(*extra)
+                    t = time.time()
+                    r = s2.check()
+                    self.stats["solver_s"] += time.time() - t
+                    self.stats["queries"] += 1
+                except z3.Z3Exception:
+                    r = z3.unknown
+                if r != z3.unknown:
+                    break
+            if r == z3.unknown:
+                raise Inconclusive(f"solver unknown: {why}")
+            if r == z3.sat:
+                self.model = None
+                self._retry_model = s2.model()
         return r == z3.sat
 
     def add(self, c):
@@ -103,7 +134,7 @@ class Ctx:
         if self.model is None:
             if not self.check():
                 raise PathAbort()
-            self.model = self.solver.model()
+            self.model = self.get_model()
         return self.model
 
     def fork(self, cond, payload=None):
@@ -828,12 +859,12 @@ def prove(c, msg="assertion"):
         sat = CTX.check(z3.Not(c))
         _second_solver(c, sat)
     if CTX.check(z3.Not(c)):
-        m = CTX.solver.model()
+        m = CTX.get_model()
         record_violation(msg, m)
         CTX.add(c)
         if not CTX.check():
             raise PathAbort()
-        CTX.model = CTX.solver.model()
+        CTX.model = CTX.get_model()
         return False
     CTX.stats["discharged"] += 1
     return True
@@ -977,9 +1008,13 @@ def explore(fn, prefix=None, split_depth=None, on_path=None, max_paths=None, dea
                 tb = traceback.extract_tb(ex.__traceback__)
                 where = ""
                 for fr in reversed(tb):
-                    if "/repo/" in fr.filename:
-                        where = f" at {fr.filename.split('/repo/')[-1]}:{fr.lineno}"
+                    if "/src/cooler/" in fr.filename:
+                        where = f" at src/cooler/{fr.filename.split('/src/cooler/')[-1]}:{fr.lineno}"
                         break
+                if not where:
+                    # the exception never passed through the code under test: the harness (or a shim called from it) is at fault
+                    raise HarnessError(f"exception raised by the harness itself, not by cooler: {type(ex).__name__}: {ex} "
+                                       f"({tb[-1].filename}:{tb[-1].lineno})" if tb else repr(ex))
                 try:
                     m = CTX.ensure_model()
                 except PathAbort:
